@@ -80,3 +80,21 @@ package client
   at call(VersionedParams) assert [caller-options-after-namespace-and-resource] (and (= $0 req) nsSet resSet)
   at call(Watch) assert [a-watch-request-with-the-callers-context] (and (= $0 req) nsSet resSet prefixed (= $1 {ctx}))
 @*/
+
+/*@ func (*client.client).List
+  props C20 C03
+  note the client made by NewClient / ForResource forwards List to the function it was built with, with the caller's context and options
+  requires (and (not (= {c} vnil)) (not (= {c.list} vnil)))
+  ghost called : Bool := false
+  at call(dyncall) assert [forwards-to-the-list-function-with-the-callers-context] (and (= $fn {c.list}) (= $0 {ctx}) (not called))
+  at call(dyncall) set called := true
+  exit [exactly-one-call] called
+@*/
+/*@ func (*client.client).Watch
+  props C20 C04
+  requires (and (not (= {c} vnil)) (not (= {c.watch} vnil)))
+  ghost called : Bool := false
+  at call(dyncall) assert [forwards-to-the-watch-function-with-the-callers-context] (and (= $fn {c.watch}) (= $0 {ctx}) (not called))
+  at call(dyncall) set called := true
+  exit [exactly-one-call] called
+@*/
